@@ -22,7 +22,9 @@ RULE = ("case = (generated acyclic RTL design with explicit U(a)<U(b) constraint
 ASSUMPTIONS = [
   "bit-level read/write sets come from the harness IR (static over-approximation for variable indices), not from "
   "pymtl3's upblk_reads/upblk_writes",
-  "method-port (CL) ordering constraints are not generated in this version (RTL designs and U-U constraints only)",
+  "CL/FL family: update_once blocks each calling at most one method (non-blocking CL or blocking FL through caller "
+  "interfaces), M<M, U<M, M<U, U<U constraints and wire dependencies all consistent with one drawn legal order; the "
+  "blocks log their own execution, so the order is observed directly; M==M constraints are not generated",
   "UpblkCyclicError is raised only after SimpleSchedulePass.dump_dag, which needs xdg-open; the harness replaces "
   "dump_dag by a no-op (no repo file touched)",
 ]
@@ -186,6 +188,7 @@ def check_ring(design, which, rseed):
 
 
 def judge(case):
+  if case.get("cl"): return judge_cl(case)
   design = case["design"]
   if case.get("ring"):
     d2 = add_ring(design, case["ring"])
@@ -244,6 +247,23 @@ def run_shard(ctx):
       ctx.sample({"source": Renderer(case["design"]).source("x")[:1200], "ring": case["ring"]})
 
   ctx.run(t, "c02")
+  if ctx.violations: return
+
+  @seed(ctx.hseed(1))
+  @ctx.settings(ctx.n(800, 16000))
+  @given(cl_cases())
+  def tcl(case):
+    if ctx.out_of_time(): return
+    ctx.count()
+    v = judge_cl(case)
+    ctx.label("cl_family_fl" if case["fl"] else "cl_family_cl")
+    kinds = {c[0] for c in case["cons"]}
+    for k in kinds: ctx.label("cl_constraint_" + k)
+    if v is None and (kinds & {"MM", "UM", "MU"}) and case["nb"] >= 3:
+      ctx.nontriv(["cl", case["calls"], case["cons"], case["wires"], case["fl"]])
+    ctx.judge(case, v)
+    if ctx.evaluations % 97 == 0: ctx.sample({"cl_source": cl_source(case)[:1200]})
+  ctx.run(tcl, "c02cl")
 
 
 def replay(case):
@@ -251,3 +271,147 @@ def replay(case):
     v = judge(case)
     if v is not None: return v
   return None
+
+
+# ---------------------------------------------------------------------------------------------------
+# CL / FL family: update_once blocks calling methods, M(x)<M(y), U<M, M<U, U<U and value dependencies
+# ---------------------------------------------------------------------------------------------------
+
+@st.composite
+def cl_cases(draw):
+  nb = draw(st.integers(2, 6))
+  nm = draw(st.integers(1, 4))
+  fl = draw(st.integers(0, 2)) == 0                   # blocking (FL, greenlet-wrapped) instead of non-blocking (CL)
+  perm = draw(st.permutations(list(range(nb))))       # perm[k] = block at position k of one legal order
+  pos = {b: k for k, b in enumerate(perm)}
+  calls = {b: draw(st.one_of(st.none(), st.integers(0, nm - 1))) for b in range(nb)}
+  callers = {m: [b for b in range(nb) if calls[b] == m] for m in range(nm)}
+  # value dependencies through wires: writer earlier than reader in the intended order
+  wires = []
+  for _ in range(draw(st.integers(0, 3))):
+    wb, rb = draw(st.integers(0, nb - 1)), draw(st.integers(0, nb - 1))
+    if pos[wb] < pos[rb] and all(w != wb for w, _ in wires): wires.append((wb, rb))
+  cons = []
+  for _ in range(draw(st.integers(0, 6))):
+    k = draw(st.sampled_from(["MM", "UM", "MU", "UU"]))
+    if k == "MM":
+      a, b = draw(st.integers(0, nm - 1)), draw(st.integers(0, nm - 1))
+      if a != b and callers[a] and callers[b] and max(pos[x] for x in callers[a]) < min(pos[x] for x in callers[b]):
+        cons.append(["MM", a, b])
+    elif k == "UM":
+      blk, m = draw(st.integers(0, nb - 1)), draw(st.integers(0, nm - 1))
+      if callers[m] and blk not in callers[m] and pos[blk] < min(pos[x] for x in callers[m]): cons.append(["UM", blk, m])
+    elif k == "MU":
+      blk, m = draw(st.integers(0, nb - 1)), draw(st.integers(0, nm - 1))
+      if callers[m] and blk not in callers[m] and max(pos[x] for x in callers[m]) < pos[blk]: cons.append(["MU", m, blk])
+    else:
+      a, b = draw(st.integers(0, nb - 1)), draw(st.integers(0, nb - 1))
+      if pos[a] < pos[b]: cons.append(["UU", a, b])
+  cons = [list(x) for x in {tuple(c) for c in cons}]
+  cons.sort()
+  order_decl = draw(st.permutations(list(range(nb))))  # definition order of the blocks in the source
+  return {"cl": True, "nb": nb, "nm": nm, "fl": fl, "calls": [calls[b] for b in range(nb)], "wires": [list(w) for w in wires],
+          "cons": cons, "decl": list(order_decl), "seeds": draw(st.lists(st.integers(0, 2 ** 20), min_size=3, max_size=3)),
+          "ticks": draw(st.integers(1, 3))}
+
+
+def cl_source(case):
+  nb, nm, fl = case["nb"], case["nm"], case["fl"]
+  L = ["from pymtl3 import *", "LOG = []", "", "class Store( Component ):", "  def construct( s ):"]
+  mm = [c for c in case["cons"] if c[0] == "MM"]
+  if mm:
+    L.append("    s.add_constraints( " + ", ".join(f"M( s.m{a} ) < M( s.m{b} )" for _, a, b in mm) + " )")
+  else:
+    L.append("    pass")
+  for m in range(nm):
+    L.append("  @blocking" if fl else "  @non_blocking( lambda s: True )")
+    L.append(f"  def m{m}( s, v ):")
+    L.append(f"    LOG.append( ('m', {m}) )")
+  L += ["", "class Top( Component ):", "  def construct( s ):", "    s.st = Store()"]
+  for i, (wb, rb) in enumerate(case["wires"]):
+    L.append(f"    s.w{i} = Wire( Bits8 )")
+  for m in range(nm):
+    L.append(f"    s.c{m} = {'CallerIfcFL' if fl else 'CallerIfcCL'}()")
+    L.append(f"    s.c{m} //= s.st.m{m}")
+  for b in case["decl"]:
+    L.append("    @update_once")
+    L.append(f"    def blk{b}():")
+    L.append(f"      LOG.append( ('b', {b}) )")
+    for i, (wb, rb) in enumerate(case["wires"]):
+      if rb == b: L.append(f"      t{i} = s.w{i} + 1")
+    for i, (wb, rb) in enumerate(case["wires"]):
+      if wb == b: L.append(f"      s.w{i} @= {b + 1}")
+    m = case["calls"][b]
+    if m is not None:
+      if fl: L.append(f"      s.c{m}( {b} )")
+      else:
+        L.append(f"      if s.c{m}.rdy():")
+        L.append(f"        s.c{m}( {b} )")
+  other = [c for c in case["cons"] if c[0] != "MM"]
+  for c in other:
+    if c[0] == "UM": L.append(f"    s.add_constraints( U( blk{c[1]} ) < M( s.st.m{c[2]} ) )")
+    elif c[0] == "MU": L.append(f"    s.add_constraints( M( s.st.m{c[1]} ) < U( blk{c[2]} ) )")
+    else: L.append(f"    s.add_constraints( U( blk{c[1]} ) < U( blk{c[2]} ) )")
+  return "\n".join(L) + "\n"
+
+
+def judge_cl(case):
+  import hashlib, importlib.util, os, sys
+  rtl_sim.patch_pymtl3()
+  src = cl_source(case)
+  modname = f"vfc02cl_{os.getpid()}_{hashlib.sha1(src.encode()).hexdigest()[:10]}"
+  path = os.path.join(os.getcwd(), modname + ".py")
+  with open(path, "w") as f: f.write(src)
+  spec = importlib.util.spec_from_file_location(modname, path)
+  mod = importlib.util.module_from_spec(spec); sys.modules[modname] = mod
+  try:
+    spec.loader.exec_module(mod)
+    callers = {m: [b for b in range(case["nb"]) if case["calls"][b] == m] for m in range(case["nm"])}
+    for pi, which in enumerate(rtl_sim.PASSES + ["simple"]):
+      if case["fl"] and which == "heutopo": continue      # HeuristicTopoPass has no support for greenlet-wrapped blocks
+      top = mod.Top()
+      try:
+        top.elaborate()
+        random.seed(case["seeds"][pi % 3] + pi)
+        from pymtl3.passes.PassGroups import DefaultPassGroup, SimpleSimPass
+        from pymtl3.passes.mamba.PassGroups import HeuTopoUnrollSim, Mamba2020, UnrollSim
+        P = {"default": DefaultPassGroup(), "simple": SimpleSimPass(), "heutopo": HeuTopoUnrollSim(print_line_trace=False),
+             "mamba": Mamba2020(print_line_trace=False), "unroll": UnrollSim(print_line_trace=False)}[which]
+        top.apply(P)
+        for t in range(case["ticks"]):
+          del mod.LOG[:]
+          top.sim_tick()
+          log = list(mod.LOG)
+          bpos = {}
+          for k, (kind, x) in enumerate(log):
+            if kind == "b":
+              if x in bpos: return (f"cl:{which}:block_ran_twice", f"tick {t}: blk{x}; log={log}")
+              bpos[x] = k
+          for b in range(case["nb"]):
+            if b not in bpos: return (f"cl:{which}:block_did_not_run", f"tick {t}: blk{b}; log={log}")
+          for wb, rb in case["wires"]:
+            if bpos[wb] > bpos[rb]: return (f"cl:{which}:reader_before_writer", f"tick {t}: blk{rb} read a wire before blk{wb} wrote it; log={log}")
+          for c in case["cons"]:
+            if c[0] == "MM":
+              if max(bpos[x] for x in callers[c[1]]) > min(bpos[x] for x in callers[c[2]]):
+                return (f"cl:{which}:method_constraint_violated", f"tick {t}: M(m{c[1]}) < M(m{c[2]}); log={log}")
+            elif c[0] == "UM":
+              if bpos[c[1]] > min(bpos[x] for x in callers[c[2]]):
+                return (f"cl:{which}:U_before_M_violated", f"tick {t}: U(blk{c[1]}) < M(m{c[2]}); log={log}")
+            elif c[0] == "MU":
+              if max(bpos[x] for x in callers[c[1]]) > bpos[c[2]]:
+                return (f"cl:{which}:M_before_U_violated", f"tick {t}: M(m{c[1]}) < U(blk{c[2]}); log={log}")
+            else:
+              if bpos[c[1]] > bpos[c[2]]:
+                return (f"cl:{which}:explicit_constraint_violated", f"tick {t}: U(blk{c[1]}) < U(blk{c[2]}); log={log}")
+      except Exception as ex:
+        import traceback
+        tb = traceback.extract_tb(ex.__traceback__)
+        inner = [f for f in tb if "/pymtl3/" in f.filename]
+        if not inner: raise
+        return (f"cl:{which}:exception:{type(ex).__name__}@{inner[-1].name}", f"{ex}"[:300])
+    return None
+  finally:
+    sys.modules.pop(modname, None)
+    try: os.remove(path)
+    except OSError: pass
